@@ -203,6 +203,36 @@ def lasdata_layer(ck, n_cases):
             ck.fail(f"LAS 1.{minor}: second write of the field raised {type(e).__name__}: {e}", inp)
 
 
+def two_objects_layer(ck):
+    """two objects made from scratch side by side: a flag set on one does not show on the other, nor on an object made afterwards"""
+    import laspy
+    from laspy.header import GpsTimeType
+    makers = {"LasHeader()": lambda: laspy.LasHeader(), "LasHeader(version='1.4', point_format=6)": lambda: laspy.LasHeader(version="1.4", point_format=laspy.PointFormat(6)),
+              "laspy.create()": lambda: laspy.create().header, "laspy.create(point_format=7)": lambda: laspy.create(point_format=7, file_version="1.4").header}
+    for label, make in makers.items():
+        for flag, bit in FLAGS:
+            a, b = make(), make()
+            va, vb = a.global_encoding.value, b.global_encoding.value
+            cur = (va >> bit) & 1
+            setattr(a.global_encoding, flag, GpsTimeType(1 - cur) if flag == "gps_time_type" else bool(1 - cur))
+            c = make()
+            inp = {"kind": "two_objects", "made_by": label, "flag": flag}
+            ck.case(("two_objects", label, flag), nontrivial=True)
+            ck.count("two_objects")
+            if b.global_encoding.value != vb or c.global_encoding.value != vb:
+                ck.fail(f"{label}: {flag}={1 - cur} on one object changed the field of another one made the same way from {vb:#06x} to {b.global_encoding.value:#06x} "
+                        f"(an object made afterwards starts with {c.global_encoding.value:#06x})", inp)
+            try:
+                out = io.BytesIO()
+                b.write_to(out)
+                if int.from_bytes(out.getvalue()[6:8], "little") != vb:
+                    ck.fail(f"{label}: the untouched object is written with field {int.from_bytes(out.getvalue()[6:8], 'little'):#06x}, it was {vb:#06x}", inp)
+            except Exception as e:
+                ck.fail(f"{label}: writing the untouched header raised {type(e).__name__}: {e}", inp)
+            # leave the field of the first object as it was, in case it is shared
+            setattr(a.global_encoding, flag, GpsTimeType(cur) if flag == "gps_time_type" else bool(cur))
+
+
 def run(ck):
     ck.rule = ("exhaustive: all 65,536 field values x 5 flags x 2 targets on the real GlobalEncoding class "
                "(direct oracle) and on the generated Lean functions (translation validation); seeded assignment "
@@ -313,6 +343,7 @@ def run(ck):
                 ck.fail(f"LAS 1.{minor}: " + msg, {"kind": "header", "value": v, "minor": minor})
         ck.count("header_roundtrips_1.%d" % minor, len(sub))
     lasdata_layer(ck, 60 if ck.tier == "quick" else 2500)
+    two_objects_layer(ck)
     ck.failures.sort(key=lambda f: (f["input"].get("value", 0), f["input"].get("target", 0)))
     if ck.tier == "thorough":
         ck.leanchecker(["LasModel.Props.C20"])
